@@ -68,7 +68,7 @@ unsigned int irc_ntop(char *output, unsigned int out_size, const irc_inaddr *add
         /* Print out address. */
 #define APPEND(CH) do { if (pos < out_size) output[pos] = (CH); pos++; } while (0)
         for (pos = 0, ii = 0; ii < 8; ++ii) {
-            if ((max_zeros > 0) && (ii == max_start)) {
+            if ((max_zeros > 1) && (ii == max_start)) {
                 if (ii == 0) {
                     APPEND('0');
                     APPEND(':');
